@@ -106,6 +106,11 @@ static int doOp(State& s, std::istringstream& is, const std::string& nm) {
         switch (w) { case 0: s.updQ(); break; case 1: s.updU(); break; case 2: s.updZ(); break; case 3: s.updY(); break; case 4: s.updTime(); break;
                      case 5: s.updUWeights(); break; case 6: s.updZWeights(); break; case 7: s.updQErrWeights(); break; case 8: s.updUErrWeights(); break; default: return 1; }
         return 0; }
+    if (nm=="UPDS") { int w, ss; is >> w >> ss; if (ss < 0 || ss >= ns) return 1; const SubsystemIndex sx(ss);
+        switch (w) { case 0: s.updQ(sx); break; case 1: s.updU(sx); break; case 2: s.updZ(sx); break;
+                     case 5: s.updUWeights(sx); break; case 6: s.updZWeights(sx); break; case 7: s.updQErrWeights(sx); break; case 8: s.updUErrWeights(sx); break;
+                     default: return 1; }   // there is no per-subsystem updY / updTime
+        return 0; }
     if (nm=="SDV") { K k = rdK(); int v; is >> v; if (!hasDV(s,k)) return 1;
         Value<int>::updDowncast(s.updDiscreteVariable(SubsystemIndex(k.first), DiscreteVariableIndex(k.second))) = v; return 0; }
     if (nm=="SCE") { K k = rdK(); int v; is >> v; if (!hasCE(s,k)) return 1;
